@@ -7,6 +7,7 @@ package vlib
 import (
 	"bufio"
 	"bytes"
+	"context"
 	"encoding/json"
 	"flag"
 	"fmt"
@@ -273,6 +274,8 @@ func (a *Aggregate) merge(l caseLine) {
 	a.Inconclusive = append(a.Inconclusive, l.Inconc...)
 }
 
+const exitPrepareStuck = 98
+
 const exitHang = 97
 
 // Main is the entry point of every check binary.
@@ -362,7 +365,20 @@ func runWorker(chk *Check, env *Env, outPath, journalPath string, resumeAfter, o
 		// collector on a loaded machine does not run into the address-space limit by itself
 		debug.SetMemoryLimit(int64(lim / 4))
 	}
+	prepDone := make(chan struct{})
+	go func() {
+		select {
+		case <-prepDone:
+		case <-time.After(20 * time.Minute):
+			buf := make([]byte, 1<<20)
+			buf = buf[:runtime.Stack(buf, true)]
+			fmt.Fprintln(os.Stderr, "prepare did not finish within 20 minutes")
+			os.Stderr.Write(buf)
+			os.Exit(exitPrepareStuck)
+		}
+	}()
 	n, err := chk.Prepare(env)
+	close(prepDone)
 	if err != nil {
 		fmt.Fprintln(os.Stderr, "prepare failed:", err)
 		os.Exit(3)
@@ -572,6 +588,16 @@ func runDriver(chk *Check, env *Env, nw int, only int) int {
 							ws.resumeAfter = idx
 							continue
 						}
+						if !reproduced {
+							agg.Inconclusive = append(agg.Inconclusive, fmt.Sprintf("worker %d died at case %d and the re-runs of that case did not finish either", ws.i, idx))
+							mu.Unlock()
+							ws.crashes++
+							if ws.crashes > 40 {
+								return
+							}
+							ws.resumeAfter = idx
+							continue
+						}
 					}
 					marker := "WARNING: DATA RACE"
 					if env.Asan {
@@ -706,16 +732,41 @@ func lastJournal(path string) (idx int, ekey, edesc string, hang bool) {
 	return
 }
 
+// runAlone executes one case in a process of its own, with an overall deadline (the worker's own
+// watchdogs cover the case and Prepare; this one covers everything else) and its stderr kept.
+// It returns the exit error (nil on success), whether the deadline struck, and the output path.
+func runAlone(chk *Check, env *Env, self string, idx int, kind string) (error, bool, string) {
+	dir, _ := os.MkdirTemp(env.Scratch, kind)
+	out := filepath.Join(dir, "o")
+	args := []string{"--tier", env.Tier, "--worker", "0/1", "--only", strconv.Itoa(idx), "--out", out, "--journal", filepath.Join(dir, "j")}
+	if env.Asan {
+		args = append(args, "--asan")
+	} else if env.Race {
+		args = append(args, "--race")
+	}
+	limit := 3*chk.CaseTimeout + 30*time.Minute
+	ctx, cancel := context.WithTimeout(context.Background(), limit)
+	defer cancel()
+	cmd := exec.CommandContext(ctx, self, args...)
+	if ef, err := os.Create(filepath.Join(dir, "stderr")); err == nil {
+		cmd.Stderr, cmd.Stdout = ef, ef
+		defer ef.Close()
+	}
+	cmd.Env = append(os.Environ(), "VERIF_SEED="+strconv.FormatUint(env.Seed, 10), "VERIF_SCRATCH="+dir, "VERIF_TIER="+env.Tier)
+	err := cmd.Run()
+	return err, ctx.Err() != nil, out
+}
+
 // confirmCrash re-runs the case alone up to three times; it reports whether any run died, and the
 // output of the last completed run.
 func confirmCrash(chk *Check, env *Env, self string, idx int) (bool, string) {
 	last := ""
 	for try := 0; try < 3; try++ {
-		dir, _ := os.MkdirTemp(env.Scratch, "crash")
-		out := filepath.Join(dir, "o")
-		cmd := exec.Command(self, "--tier", env.Tier, "--worker", "0/1", "--only", strconv.Itoa(idx), "--out", out, "--journal", filepath.Join(dir, "j"))
-		cmd.Env = append(os.Environ(), "VERIF_SEED="+strconv.FormatUint(env.Seed, 10), "VERIF_SCRATCH="+dir, "VERIF_TIER="+env.Tier)
-		if err := cmd.Run(); err != nil || !workerDone(out) {
+		err, deadline, out := runAlone(chk, env, self, idx, "crash")
+		if deadline {
+			continue // the re-run itself got stuck outside the case: says nothing about the case
+		}
+		if err != nil || !workerDone(out) {
 			return true, ""
 		}
 		last = out
@@ -727,17 +778,10 @@ func confirmCrash(chk *Check, env *Env, self string, idx int) (bool, string) {
 // a hang: the completed run's output file is returned and merged like any worker output.
 func confirmHang(chk *Check, env *Env, self string, idx int) (bool, string) {
 	for try := 0; try < 2; try++ {
-		dir, _ := os.MkdirTemp(env.Scratch, "hang")
-		out := filepath.Join(dir, "o")
-		args := []string{"--tier", env.Tier, "--worker", "0/1", "--only", strconv.Itoa(idx), "--out", out, "--journal", filepath.Join(dir, "j")}
-		if env.Asan {
-			args = append(args, "--asan")
-		} else if env.Race {
-			args = append(args, "--race")
+		err, deadline, out := runAlone(chk, env, self, idx, "hang")
+		if deadline {
+			return false, ""
 		}
-		cmd := exec.Command(self, args...)
-		cmd.Env = append(os.Environ(), "VERIF_SEED="+strconv.FormatUint(env.Seed, 10), "VERIF_SCRATCH="+dir, "VERIF_TIER="+env.Tier)
-		err := cmd.Run()
 		if ee, ok := err.(*exec.ExitError); !ok || ee.ExitCode() != exitHang {
 			if err == nil && workerDone(out) {
 				return false, out
